@@ -475,6 +475,11 @@ func (g *G) TypedOp(kind string, s Schema, env *TEnv, joinDepth int) (Op, Schema
 				v = g.SpellStr(pickFrom(g, "propstr", []string{"v", "w w", "Title"}))
 			case 1:
 				v = &QIdent{Parts: []Ident{{Name: pickFrom(g, "propid", []string{"stacked", "k", "x1"})}}}
+				if env != nil && len(env.Bindings) > 0 && g.chance("propbinding", 2) {
+					// a name that is also a binding: a render value is a word,
+					// not an expression
+					v = &QIdent{Parts: []Ident{{Name: pickFrom(g, "propbindingname", env.Bindings).Name}}}
+				}
 			default:
 				v = &Num{Text: fmt.Sprint(1 + g.n("propnum", 9))}
 			}
